@@ -17,9 +17,6 @@ CLAUSES = {
     3: "gcxs_getitem_unsigned_indices",
     4: "D21_gcxs_several_index_arrays",
     5: "D22_gcxs_0d_or_none_with_only_ints",
-    6: "D22_dok_empty_key",
-    7: "D24_dok_all_array_key_takes_fancy_getitem",
-    8: "D22_dok_0d",
     9: "outside_grammar",
     10: "D27_gcxs_none_with_1d_result",
     11: "D28_gcxs_none_after_int",
@@ -27,7 +24,10 @@ CLAUSES = {
     13: "D29_empty_bool_index_on_nonempty_axis",
     14: "D30_multi_array_mask_unchecked_out_of_bounds_access",
     15: "input_not_wellformed",
+    16: "dok_array_key_not_for_every_axis",
 }
+# decided on the Python side (the dtype of an index array is not part of the Coq index literal)
+NARROW = "narrow_dtype_index_array_overflow"
 KINDS = {1: "representation", 2: "value", 3: "value", 4: "value", 5: "value", 6: "value", 7: "value", 8: "harness",
          9: "spec"}
 KIND_WHAT = {1: "representation differs from the model", 2: "shape or elements differ from NumPy",
@@ -37,7 +37,7 @@ KIND_WHAT = {1: "representation differs from the model", 2: "shape or elements d
 FMT = {"coo": 0, "gcxs": 1, "dok": 2}
 
 # ------------------------------------------------------------------ index entries (JSON-able)
-# ["i", z] | ["s", a, b, c] | ["N"] | ["E"] | ["a", [ints], as_ndarray] | ["b", [bools], as_ndarray]
+# ["i", z] | ["s", a, b, c] | ["N"] | ["E"] | ["a", [ints], as_ndarray or a dtype name] | ["b", [bools], as_ndarray]
 
 
 def entry_lit(e):
@@ -72,6 +72,8 @@ def entry_py(e):
     if k == "E":
         return "Ellipsis"
     if k == "a":
+        if isinstance(e[2], str):
+            return f"np.array({e[1]!r}, dtype=np.{e[2]})"
         return f"np.array({e[1]!r}, dtype=np.intp)" if e[2] else repr(e[1])
     if k == "b":
         return f"np.array({e[1]!r}, dtype=bool)" if (e[2] or not e[1]) else repr(e[1])
@@ -94,6 +96,8 @@ def entry_obj(e):
     if k == "E":
         return Ellipsis
     if k == "a":
+        if isinstance(e[2], str):
+            return np.array(e[1], dtype=e[2])
         return np.array(e[1], dtype=np.intp) if e[2] else list(e[1])
     if k == "b":      # an empty Python list is an (empty) integer index for NumPy: keep bool arrays typed
         return np.array(e[1], dtype=bool) if (e[2] or not e[1]) else list(e[1])
@@ -607,6 +611,14 @@ def api_cases(tier, seed):
             cases.append({"base": base, "op": op, "index": inst, "cls": "op:" + "".join(dpat)})
     # inputs produced from SciPy matrices written down as (data, indices, indptr)
     cases.extend(scipy_cases(rng, tier))
+    # index arrays of a narrow dtype on an axis whose extent does not fit that dtype (posify_index / check_index)
+    long1 = {"shape": [200], "coords": [[0], [5], [100], [199]], "data": [1, 2, 3, 4], "fill": 0, "caxes": None}
+    long2 = {"shape": [2, 200], "coords": [[0, 5], [1, 100], [1, 199]], "data": [2, 3, 4], "fill": 0, "caxes": [0]}
+    for fmt in ("coo", "gcxs", "dok"):
+        for dt, vals in (("int8", [-1, 5]), ("int8", [100]), ("int16", [-1, 5, 100]), ("uint8", [199, 0])):
+            cases.append({"base": [dict(long1, format=fmt)], "op": None, "index": [["a", vals, dt]], "cls": "narrow:" + dt})
+            cases.append({"base": [dict(long2, format=fmt)], "op": None, "index": [["s", None, None, None], ["a", vals, dt]],
+                          "cls": "narrow:" + dt})
     # directed: the documented defect witnesses
     a5 = {"shape": [5], "coords": [[0], [1], [2], [3], [4]], "data": [1, 2, 3, 4, 5], "fill": 0, "caxes": None}
     y = vlib.gen_array_spec(random.Random(1), shape=[2, 3, 4], fills=(0,), density=1.0)
@@ -810,7 +822,9 @@ def campaign_index(build, tier, seed, report, budget=1):
         c, r = kept[i]
         mdiff, code = code // 1000, code % 1000
         kind, cl = code % 10, code // 10
-        if mdiff and cl not in (9,):
+        narrow = (cl == 0 and r["out"].get("cls") == "OverflowError"
+                  and any(e[0] == "a" and isinstance(e[2], str) for e in c["index"]))
+        if mdiff and cl not in (9,) and not narrow:     # (the dtype of an index array is not modelled)
             viol.append({"property": "C02", "op": "getitem", "kind": "representation",
                          "clause": CLAUSES.get(cl, f"clause{cl}"),
                          "what": "the model does not reproduce the implementation's answer on an out-of-domain case",
@@ -822,6 +836,10 @@ def campaign_index(build, tier, seed, report, budget=1):
             continue
         what = KIND_WHAT.get(kind)
         vkind = KINDS.get(kind, "value")
+        clause_name = CLAUSES.get(cl, f"clause{cl}")
+        if cl == 0 and r["out"].get("cls") == "OverflowError" and any(e[0] == "a" and isinstance(e[2], str) for e in c["index"]):
+            clause_name = NARROW
+            what = "OverflowError for an index array whose (narrow) dtype cannot hold the extent of the axis it indexes"
         if cl == 15:
             vkind = "value" if r.get("agree") is False else "representation"
             what = (("x[index] differs from NumPy on m.toarray(); reason: " if r.get("agree") is False else "") + "the array being indexed is not in canonical form (unsorted or REPEATED entries inside a row, or inconsistent "
@@ -832,7 +850,7 @@ def campaign_index(build, tier, seed, report, budget=1):
             # and wrote full_idx[ix] past the end of both arrays (its py_func raises IndexError on the same input)
             vkind, what = "value", "unchecked out-of-bounds read and write in a nopython kernel (memory safety)"
         viol.append({"property": "C02", "op": "getitem", "kind": vkind,
-                     "clause": CLAUSES.get(cl, f"clause{cl}"), "what": what,
+                     "clause": clause_name, "what": what,
                      "format": r["inp"]["k"], "producer": c.get("op"),
                      "case": {"index": index_py(c["index"]), "input": r["inp"], "class": c.get("cls"), "scipy": c.get("scipy")},
                      "impl": r["out"], "expected_numpy": r["np"], "replay_py": replay_of(c)})
